@@ -12,6 +12,7 @@ echo "| seed | property | exit | outcome |" >> $OUT
 echo "|------|----------|------|---------|" >> $OUT
 git -C $REPO status --short | grep -q . && { echo "$REPO not clean"; exit 2; }
 for d in seeded/*/; do
+  [ -f $d/meta.json ] || continue
   n=$(basename $d)
   p=$(python3 -c "import json;print(json.load(open('$d/meta.json'))['property'])")
   if ! git -C $REPO apply --check $PWD/$d/patch.diff 2>/dev/null; then echo "| $n | $p | - | patch does not apply |" >> $OUT; continue; fi
